@@ -395,9 +395,16 @@ class IndentationFitter(object):
         # modify contact point with gcf_k
         # (the bounds live in the same coordinates as the value)
         cpi = params_initial["contact_point"]
-        cpi.set(value=cpi.value * self.fp["gcf_k"],
-                min=cpi.min * self.fp["gcf_k"],
-                max=cpi.max * self.fp["gcf_k"])
+        cp_expr = cpi.expr
+        if cp_expr:
+            # A constrained contact point is rescaled via its expression
+            # (setting a value would remove the constraint).
+            cpi.set(expr="({})*{!r}".format(cp_expr,
+                                            float(self.fp["gcf_k"])))
+        else:
+            cpi.set(value=cpi.value * self.fp["gcf_k"],
+                    min=cpi.min * self.fp["gcf_k"],
+                    max=cpi.max * self.fp["gcf_k"])
         weight_cp = self.fp["weight_cp"]
 
         # boolean array indexing the segment
@@ -439,9 +446,12 @@ class IndentationFitter(object):
             fit_res[segid] = md.residual(fit.params, xseg, yseg, weight_cp)
             # inverse contact point correction with gcf_k
             cpf = fit.params["contact_point"]
-            cpf.set(value=cpf.value / self.fp["gcf_k"],
-                    min=cpf.min / self.fp["gcf_k"],
-                    max=cpf.max / self.fp["gcf_k"])
+            if cp_expr:
+                cpf.set(expr=cp_expr)
+            else:
+                cpf.set(value=cpf.value / self.fp["gcf_k"],
+                        min=cpf.min / self.fp["gcf_k"],
+                        max=cpf.max / self.fp["gcf_k"])
             # add fit results to fp dictionary
             self.fp.update({"params_fitted": fit.params,
                             "chi_sqr": fit.chisqr,
